@@ -53,7 +53,9 @@ def operator_context_cases(ctx: Ctx, backend: str, opts, fraction: int):
            ("where_count", "num", lambda J, E: f"{seq(J, E)}.Where(lambda v: v > 10.0).Count()"), ("first_guarded", "num", lambda J, E: f"({seq(J, E)}.First() if {seq(J, E)}.Count() > 0 else -1.0)"),
            ("index_guarded", "num", lambda J, E: (f"({J}.hits()[1] if {J}.hits().Count() > 1 else -1)" if J else f"({E}.{C}('A')[1].nTrk() if {E}.{C}('A').Count() > 1 else -1)")), ("range_sum", "num", lambda J, E: f"Range(0, {i(J, E)}).Sum()"),
            ("tuple_index", "num", lambda J, E: f"({x(J, E)}, {i(J, E)})[1]"), ("dict_index", "num", lambda J, E: f"{{'p': {x(J, E)}, 'q': {i(J, E)}}}['p']"),
-           ("select_sum", "num", lambda J, E: f"{seq(J, E)}.Select(lambda v: v * 2).Sum()")]
+           ("select_sum", "num", lambda J, E: f"{seq(J, E)}.Select(lambda v: v * 2).Sum()"),
+           # rounding functions of values far outside the int range (MeV-scale quantities squared): the value is what Python's float gives
+           ("round_large", "num", lambda J, E: f"(floor({x(J, E)} * 100000000.0) + round({x(J, E)} * 300000000.0) - trunc({x(J, E)} * 1000.0) * ceil({x(J, E)} * 1000000.0))")]
     out = []
     k = 0
     for oname, okind, ofn in OPS:
@@ -61,7 +63,8 @@ def operator_context_cases(ctx: Ctx, backend: str, opts, fraction: int):
             if pname == "range_bound" and oname not in ("count", "mod", "aggregate", "add", "uadd", "tuple_index"):
                 continue
             k += 1
-            if (k + ctx.seed) % fraction != 0:
+            first_position = pname == positions(backend, s)[0][0]
+            if (k + ctx.seed) % fraction != 0 and not first_position:   # every operator at least once, in the plainest position
                 continue
             R = ctx.rng("opctx", backend, oname, pname)
             g = qgen.QGen(s, R, **opts)
